@@ -166,6 +166,36 @@ def statements(m18, teal):
     return [tuple(x) for x in r[1:]]
 
 
+def resolve_consts(teal):
+    """assembleConstants=True output with every constant load resolved against its block: `intc_N`/`intc N` -> `pushint V`,
+    `bytec_N`/`bytec N` -> `pushbytes 0x..`, the block lines dropped, the trailing `// literal` echo of constant loads removed.
+    Two programs that differ only in HOW constants are loaded (a Nonce's bytes join the frequency statistics of the constant
+    blocks, so other constants may move between push and block form) resolve to the same text; what the loads push is C12's
+    subject and is compared there."""
+    lines = teal.split("\n")
+    ints, byts = [], []
+    for l in lines:
+        if l.startswith("intcblock"):
+            ints = l.split()[1:]
+        elif l.startswith("bytecblock"):
+            byts = l.split()[1:]
+    out = []
+    for l in lines:
+        if l.startswith("intcblock") or l.startswith("bytecblock"):
+            continue
+        head = l.split(" //")[0] if l.split(" ")[0].split("_")[0] in ("intc", "bytec", "pushint", "pushbytes") else l
+        tok = head.split()
+        if tok and tok[0].startswith("intc"):
+            k = int(tok[0].split("_")[1]) if "_" in tok[0] else int(tok[1])
+            out.append("pushint " + (ints[k] if k < len(ints) else "?%d" % k))
+        elif tok and tok[0].startswith("bytec"):
+            k = int(tok[0].split("_")[1]) if "_" in tok[0] else int(tok[1])
+            out.append("pushbytes " + (byts[k] if k < len(byts) else "?%d" % k))
+        else:
+            out.append(head)
+    return "\n".join(out)
+
+
 def is_nonce_push(line, lit, val):
     """`byte LIT`, or with assembleConstants `pushbytes 0xHEX // LIT` (the trailing echo is a comment)"""
     if line == "byte " + lit:
@@ -300,6 +330,8 @@ class Oracle:
             self.violation("annotation changes whether the program compiles: plain=%s annotated=%s (%s)" % (pr[:2], qr[:2], desc), prog, variant, opt)
             return
         tp, tq = pr[1], qr[1]
+        if opt[4]:
+            tp, tq = resolve_consts(tp), resolve_consts(tq)
         tq_cmp = tq
         if nonce_lit is not None:
             tq_cmp, found = strip_nonce(tq, nonce_lit, nonce_val if opt[4] else None)
